@@ -91,4 +91,15 @@ PROPS['C06'] = {
                    'Refuted with witnesses and listed as known findings: newline after an aliquot does not separate; ALL followed by another element is dropped.',
 }
 
+PROPS['C07'] = {
+    'group': 'tract',
+    'level': 'proof',
+    'build_timeout': 2400,
+    'explanation': 'PARTIAL. Proved on the regenerated patterns: every documented spelling of every single component in every listed separator context under both clean_qq '
+                   'normalises to the canonical token with the context untouched; every pair of components with independent (core) spellings and any joiner collapses to the '
+                   'canonical pair; the canonical text of every chain of length 1-3 is a fixed point; bare quarters are rewritten only under clean_qq or after a half '
+                   '(each a complete enumeration of the finite family named in the theorem, by vm_compute + forallb_forall); for every text each substitute-until-stable '
+                   'loop returns a fixed point of its pass. Longer chains are not covered by a theorem; they are carried by differential execution and a canon oracle on the real code.',
+}
+
 NOT_CLAIMED = {}
